@@ -9,7 +9,7 @@ C20, HTTP write handlers — executable model of the save path of the filer's PU
   weed/filer/filer.go                                   CreateEntry / UpdateEntry over a store that refuses every write
 
 (bodies are delivered completely and every chunk upload succeeds: the error exit of uploadReaderToChunks — since
-/repo f7329273 it hands the chunks uploaded so far to DeleteChunks and the request never reaches saveMetaData — is
+/repo c68165d2 it hands the chunks uploaded so far to DeleteChunks and the request never reaches saveMetaData — is
 the subject of C25, not generated here)
 
 on top of the namespace model `SwV.Model.C18` (createEntry, find). Chunk ids: the master hands out unused ids; the
